@@ -13,11 +13,15 @@ from fractions import Fraction
 import numpy as np
 
 from common import Ctx, Finding, Outcome
+from c14_src import gen_munkres_src
 
 PROPERTY = "C14"
 LEAN_TARGETS = ["QcelVerif.Props.C14", "QcelVerif.Props.C14Inv", "QcelVerif.Props.C14Term", "QcelVerif.Props.C14Exact", "QcelVerif.Lemmas.AssignCert",
                 "QcelVerif.Lemmas.MunkresInv", "QcelVerif.Lemmas.MunkresInv2", "QcelVerif.Lemmas.MunkresTerm", "QcelVerif.Lemmas.MunkresExact",
-                "QcelVerif.Lemmas.MunkresExactRun", "QcelVerif.Lemmas.MunkresRound", "QcelVerif.Model.MunkresFloat", "QcelVerif.Driver.C14"]
+                "QcelVerif.Lemmas.MunkresExactRun", "QcelVerif.Lemmas.MunkresRound", "QcelVerif.Model.MunkresFloat", "QcelVerif.Model.MunkresAst",
+                "QcelVerif.Gen.MunkresSrc", "QcelVerif.Lemmas.MunkresSrc.Step136", "QcelVerif.Lemmas.MunkresSrc.Step4", "QcelVerif.Lemmas.MunkresSrc.Step5",
+                "QcelVerif.Props.C14Src", "QcelVerif.Driver.C14"]
+TRANSLATORS = [gen_munkres_src]  # lean/QcelVerif/Gen/MunkresSrc.lean <- qcelemental/util/scipy_hungarian.py (ast), on every run
 DRIVER = "QcelVerif/Driver/C14.lean"
 THEOREMS = [
     ("QcelVerif.Assign.cert_optimal",
@@ -86,11 +90,47 @@ THEOREMS = [
      "every _Hungary state recorded in the trace of an answer of solve is a visited state (so the clauses above hold of every state the harness compares)"),
     ("QcelVerif.Munkres.intBoxB_sound",
      "the executable check the driver uses to report 'inside the theorem' (all entries integers in [lo,hi]) implies the hypothesis of the exactness theorems"),
+    ("QcelVerif.MunkresAst.step1_src",
+     "for ALL states and every rounding function: _step1 as regenerated from the source (row-minima subtraction with axis read from the source, the np.nonzero(C == 0) loop in row-major order, the three masked assignments, _clear_covers, return _step3) = step1F of Model/MunkresFloat.lean (= step1 of Model/Munkres.lean at rnd = id)"),
+    ("QcelVerif.MunkresAst.step3_src",
+     "for ALL states: the source-derived _step3 (cover columns with a star, compare the star count with C.shape[0], return _step4 or None) = the model's step3"),
+    ("QcelVerif.MunkresAst.step4_src",
+     "for ALL states: the source-derived _step4 (C/covered_C masks, the while True with argmax/unravel_index, priming, the Z0 stores, the row/column re-covering, return _step5/_step6) run on the model's fuel n+1 = the model's step4 (same state, next step, or fuel error)"),
+    ("QcelVerif.MunkresAst.step5_src",
+     "for ALL states: the source-derived _step5 (path bookkeeping incl. the two-component path writes, col = -1 with numpy index wrap-around, the flip loop over range(count+1), _clear_covers, prime erasure, return _step3) run on the model's fuel n+m+1 = the model's step5 (same state or same fuel/index error)"),
+    ("QcelVerif.MunkresAst.step6_src",
+     "for ALL states and every rounding function: the source-derived _step6 (guard, minval over uncovered x uncovered, += on the ~row_uncovered rows THEN -= on the col_uncovered columns, in source order, each result rounded) = step6F of Model/MunkresFloat.lean (the operation order that file had read off by hand)"),
+    ("QcelVerif.MunkresAst.doStep_src_float",
+     "every step label: the source-derived step function = doStepF rnd of the work-dtype model, for all states and rounding functions"),
+    ("QcelVerif.MunkresAst.doStep_src",
+     "every step label: the source-derived step function at rnd = id = doStep of the exact model, for all states"),
+    ("QcelVerif.MunkresAst.runSteps_src_float",
+     "the source-derived `while step is not None: step = step(state)` = runStepsF rnd for EVERY fuel, start label, state and trace prefix"),
+    ("QcelVerif.MunkresAst.runSteps_src",
+     "the same at rnd = id against runSteps of the exact model, every fuel"),
+    ("QcelVerif.MunkresAst.solve_src_float",
+     "the source-derived linear_sum_assignment (refusals in source order, the transposition test with the comparison read from the source, _Hungary's constants, first step None on a 0-length axis, the loop, un-transposition, np.nonzero(marked == 1) read-out) = solveFloat rnd for EVERY input and rounding function"),
+    ("QcelVerif.MunkresAst.solve_src",
+     "the source-derived solver at rnd = id = solve of Model/Munkres.lean for EVERY input (same refusal, or same trace, pairs and reduced matrix)"),
+    ("QcelVerif.MunkresAst.solveCapped_ok",
+     "what the driver executes for the three-way comparison (the source-derived solver on the smaller fuel min((n+1)(2n+5)+1, 4(n+m)^3+16)) : whenever it answers, the source-derived solver on the model's fuel returns the same answer (more fuel never changes an answer, runSteps_mono)"),
+    ("QcelVerif.MunkresAst.solve_src_correct",
+     "TOTAL CORRECTNESS restated over the source-derived solver: every valid well-shaped cost matrix is answered with a complete assignment, rows increasing, of minimum total cost over ALL complete assignments; every optimum lies on the zeros of the reduced matrix, which is >= 0, = 0 on the pairs and = cost - u_i - v_j (permutation, optimality and termination in one statement)"),
+    ("QcelVerif.MunkresAst.solve_src_refuses_bad",
+     "ndim != 2, non-numeric dtype or an inf/nan entry -> the source-derived solver returns the corresponding error for every rounding function"),
+    ("QcelVerif.MunkresAst.solve_src_float64_exact",
+     "integer entries with 8*max|entry| <= 2^53: the source-derived solver with IEEE round-to-nearest-even at every +/- the SOURCE performs on state.C = its exact run"),
+    ("QcelVerif.MunkresAst.solve_src_int64_exact",
+     "integer entries with 8*max|entry| < 2^63: the source-derived solver with int64 wrap-around at every source operation = its exact run"),
+    ("QcelVerif.MunkresAst.solve_src_uint64_exact",
+     "integer entries with 8*max|entry| < 2^64: the same for uint64 wrap-around"),
+    ("QcelVerif.MunkresAst.solve_src_box_exact",
+     "entries on a grid inside [lo,hi] and rnd the identity on grid values in [0,4(hi-lo)]: the source-derived rounded run = its exact run"),
 ]
 TRUSTED_BASE = [
     "Lean 4.33 kernel; axioms per theorem audited on every run (subset of propext, Classical.choice, Quot.sound)",
-    "hand-written model Model/Munkres.lean of scipy_hungarian.py:93-296, tied by step-trace correspondence (every step's full state) on exactly representable matrices",
-    "Model/MunkresFloat.lean: WHICH operations the work dtype performs (x - rowmin in _step1; x + minval on covered rows, then (..) - minval on uncovered columns in _step6; min/==/argmax never round) and WHICH dtype state.C has (float16/32/64 -> float64, bool/int8..64/uint8..32 -> int64, uint64 -> uint64) are read off the source by hand; tied by the bit-for-bit trace diff of the inexact:* stream (incl. int64 entries beyond 2^53 and float32/float16/int32/uint32 inputs) and, beyond the bound, by the above:* stream against solveFloat rndDouble",
+    "hand-written model Model/Munkres.lean of scipy_hungarian.py: NO LONGER tied by traces only - the step functions _step1.._step6, _Hungary.__init__/_clear_covers and linear_sum_assignment are REGENERATED FROM THE SOURCE on every run (harness/c14_src.py, Python ast -> Gen/MunkresSrc.lean, terms of the array-statement AST of Model/MunkresAst.lean) and the evaluated terms are PROVED equal to the hand model for all states, all fuel, all inputs (Props/C14Src.lean: step*_src, runSteps_src, solve_src). What remains trusted on this link: (i) the translator harness/c14_src.py (strict: every statement/expression form is matched explicitly, anything else raises and the check reports a broken obligation), (ii) the numpy meaning the evaluator Model/MunkresAst.lean gives each statement form (np.nonzero row-major on the matrix as it is when the loop starts, np.argmax = first maximum, negative column index = wrap-around, boolean-mask += / -=, `while True` on the model's fuel, scalar locals other than _step5's `col` are naturals), (iii) state.C.shape[1] is read as len(col_uncovered) (equal under the proved Shape invariant); all three are exercised by the three-way trace diff (implementation / hand model / source-derived run, every step state); the driver runs the source-derived solver on the smaller fuel capFuel = min((n+1)(2n+5)+1, 4(n+m)^3+16) so that a program regenerated from a mutated, non-terminating source gives up quickly - solveCapped_ok proves an answer on that fuel is the answer on the model's fuel",
+    "Model/MunkresFloat.lean: WHICH operations the work dtype performs and IN WHICH ORDER (x - rowmin in _step1; x + minval on covered rows, then (..) - minval on uncovered columns in _step6) is no longer read off by hand: the source-derived steps carry a rounding parameter at every += / -= on state.C that the SOURCE contains, in source order, and are proved equal to step1F / step6F (step1_src, step6_src, solve_src_float); that min/==/argmax never round is part of the evaluator's numpy semantics. WHICH dtype state.C has (float16/32/64 -> float64, bool/int8..64/uint8..32 -> int64, uint64 -> uint64) is still read off the source by hand (the translator only checks that the astype chain has the expected text and treats it as value-preserving); tied by the bit-for-bit trace diff of the inexact:* stream (incl. int64 entries beyond 2^53 and float32/float16/int32/uint32 inputs) and, beyond the bound, by the above:* stream against solveFloat rndDouble",
     "float64 +/- is correctly rounded (IEEE 754 round-to-nearest-even): modelled by Hash.rndDouble (no overflow/subnormals - irrelevant for integers up to 2^57), assumed of numpy/the hardware",
     "Model/AssignCert.lean certificate checker is proved sound (Props/C14.lean); its *use* on float outputs relies on Fraction(float) being exact",
     "numpy elementwise IEEE arithmetic, np.argmax = first maximum, np.nonzero row-major (folded into the model, checked by the trace diff)",
@@ -102,6 +142,7 @@ ASSUMPTIONS = [
     "dtype paths covered by the exactness theorems (Props/C14Exact.lean): work dtype float64 (inputs float16/32/64) for integer-valued entries with 8*max|entry| <= 2^53 [float_exact_on_small_integers, float64_exact_run], and more generally for entries on a grid g*Z with rnd the identity on grid values in [0,4*(max-min)] [solveFloat_eq_solve_box: e.g. the multiples of 1/8 below 2^30 of the dyadic streams - for those the identity of IEEE rounding on the grid is the hypothesis, proved concretely only for g = 1]; work dtype int64 (inputs bool, int8..int64, uint8..uint32; integer input is NOT converted to float) for 8*max|entry| < 2^63 or 4*(max-min) < 2^63 [no_overflow_int64, no_overflow_int64_spread]; work dtype uint64 (input uint64) for 8*max|entry| < 2^64 [no_overflow_uint64]. NOT covered: non-integer (non-grid) floats, integer-valued floats with 8*max|entry| > 2^53, integers beyond those bounds (wrap-around possible), the conversion of the caller's array to the work dtype (np.asarray/astype: differential only)",
     "the theorems are about the exact-rational model: partial and total correctness of Munkres (step invariants, termination within 4(n+m)^3+16 steps, n+1 passes of the step-4 loop, n+m+1 links of the step-5 path) are proved for all sizes over Rat; for float inputs whose arithmetic is not exact the implementation may deviate from the model (eps-optimality, and in principle non-termination) - that part is covered by the executed certificate with measured slack and the hang budget",
     "a mutation that changes the step sequence but still yields certified optimal answers is reported as a broken correspondence (VIOLATION ... no-failing-input-found), not as a property failure",
+    "source-derived solver: the translator covers exactly the constructs the current scipy_hungarian.py uses (it fails loudly on anything else, e.g. a rewritten loop or a new helper: the check then reports a broken obligation rather than a verdict); the refusal messages are mapped to error kinds by their text prefix; np.asarray and the astype chain are modelled as the identity on values; return_cost=False is the same read-out without the matrix (the translator checks both returns give the same index arrays)",
     "call sequences keep at most the 8 preceding calls of one process as history; dependence on older calls or on another process/thread is not explored; whether the caller's matrix is left unmodified is counted (seq:input_modified) but not demanded",
 ]
 RULE = (
@@ -125,6 +166,9 @@ RULE = (
     "M = max|entry|, B(M,n,m) = 8M and whether the hypotheses of the exactness theorems hold; inside them the implementation's full step trace, pairs and reduced "
     "matrix must equal the model's bit for bit and the property is held exactly (Fractions oracle, return_cost and index-only call); block:above:f64 = integer-valued "
     "float64 with 2^53 < 8*max|entry| <= 2^56, 2..8 x 2..8: judged by the property with the float tolerance and compared with the float64 model only (agreement with the exact model is counted, not demanded). "
+    "Three-way: every full-trace line (op T: exhaustive, rnd8, longrun...; op F: the work-dtype streams) is evaluated by the driver twice - by the hand model and by the "
+    "source-derived solver (ops TS / FS: Gen/MunkresSrc.lean regenerated from the source on this run, evaluated by Model/MunkresAst.lean, in exact arithmetic or in the work dtype) - "
+    "and the implementation's state after every step is compared with both (kinds mismatch:source-derived, mismatch:source-vs-model). "
     "Distinct = distinct (shape,dtype,entries); non-trivial = the run leaves step 3 at least once (needs priming/augmenting/adjusting) or is refused."
 )
 LEVEL_TEXT = (
@@ -135,8 +179,11 @@ LEVEL_TEXT = (
     "= cost - u - v vanishing on the pairs; tall inputs via the transpose), and refusal of bad input; and the WORK DTYPE is inside the proved part where it is exact: the model with a rounding function at every +/- of "
     "the work matrix (solveFloat) provably equals the exact model - whole trace and reduced matrix - for integer entries with 8*max|entry| <= 2^53 in float64 "
     "(concrete IEEE round-to-nearest-even), < 2^63 in int64, < 2^64 in uint64 (every intermediate value is proved to be an integer inside B(M,n,m) = 8M, working matrix "
-    "within 4M, for every shape), and for any grid/rounding pair that is exact on [0, 4*spread]; partial in that the model is hand-written (including which "
-    "operations round and which dtype the work array has) and tied to the code by exhaustive small-scope + sampled full step traces; float rounding is outside the "
+    "within 4M, for every shape), and for any grid/rounding pair that is exact on [0, 4*spread]; the hand-written model is now tied to the code by PROOF: the step functions, "
+    "the state machine loop and the pre/post-processing are regenerated from scipy_hungarian.py by a translator on every run and proved equal to the model for all states/inputs "
+    "(including which operations round, and in which order), so total correctness, refusal and the exact-dtype theorems are restated over the source-derived solver (solve_src_correct ...); "
+    "partial in that the translator and the numpy semantics of the ~40 statement/expression forms of the array-statement AST are trusted (and exercised by the three-way "
+    "exhaustive small-scope + sampled full step traces), and which dtype the work array has is still read off by hand; float rounding is outside the "
     "proved part only for non-integer (non-grid) or huge inputs - there the float64 model is differential only and optimality is held within the stated tolerance"
 )
 TECHNIQUE = "Lean 4 proof of weak duality for rectangular assignment (certificate checker) + Lean 4 invariant and termination proof (total correctness) of the Munkres model + Lean 4 proof that the run in the work dtype (float64 / int64 / uint64) equals the exact run inside an explicit magnitude bound + step-trace correspondence (exact model and work-dtype model) + brute-force oracle"
@@ -771,6 +818,10 @@ def _run_driver(ctx, lines, tag):
 
     if not lines:
         return []
+    # three-way: every trace line (T, F) is also evaluated by the SOURCE-DERIVED solver (Gen/MunkresSrc.lean, ops TS / FS)
+    own = list(lines)
+    src_of = [k for k, l in enumerate(own) if l.startswith(("T|", "F|"))]
+    lines = own + [("TS" if own[k][0] == "T" else "FS") + own[k][1:] for k in src_of]
     inp = ctx.work / f"c14_{tag}.in"
     inp.write_text("\n".join(lines) + "\n")
     exe = common.LEAN / ".lake" / "build" / "bin" / ("drv_" + Path(DRIVER).stem.lower())
@@ -784,7 +835,66 @@ def _run_driver(ctx, lines, tag):
         res.pop()
     if len(res) != len(lines):
         raise common.ModelCrash(f"driver {DRIVER}: {len(lines)} lines in, {len(res)} lines out; stderr={p.stderr[-1000:]}")
-    return res
+    for k, src_line in zip(src_of, res[len(own):]):
+        hand = res[k] if own[k][0] == "T" else res[k].rpartition("@")[0]
+        _SRC[own[k]] = src_line
+        _SRC_STATS["lines"] += 1
+        _SRC_STATS["states"] += src_line.count("#") + 1 if src_line.startswith("ok|") and src_line.count("|") >= 5 and src_line.split("|")[1] else 0
+        if src_line != hand:
+            _SRC_DIFF.append((own[k], hand, src_line))
+    return res[:len(own)]
+
+
+# source-derived lines of the three-way comparison: input line -> output of the TS / FS op; disagreements hand model / source-derived
+_SRC: dict = {}
+_SRC_DIFF: list = []
+_SRC_STATS = {"lines": 0, "states": 0, "impl_compared": 0}
+
+
+def _first_state_diff(x, y):
+    a, b = x.split("|"), y.split("|")
+    if len(a) != len(b) or a[0] != "ok" or len(a) < 6:
+        return "error/ok"
+    names = ["status", "step sequence", "pairs", "reduced", "certOK", "state trace"]
+    where = ",".join(names[i] for i in range(6) if a[i] != b[i])
+    for i, (u_, v_) in enumerate(zip(a[5].split("#"), b[5].split("#"))):
+        if u_ != v_:
+            where += f" (first at step #{i + 1} = _step{(b[1] + '?')[min(i, len(b[1]))]}: {u_[:160]} / {v_[:160]})"
+            break
+    return where
+
+
+def src_three_way(out: Outcome, line, arr, ci, hang=False, drop_cert=False):
+    """implementation vs the SOURCE-DERIVED run (the third leg; hand model vs source-derived is compared in _run_driver)"""
+    src = _SRC.get(line)
+    if src is None or hang:
+        return
+    _SRC_STATS["impl_compared"] += 1
+    x, y = src, ci
+    if drop_cert:
+        dc = lambda l: "|".join(t for i, t in enumerate(l.split("|")) if i != 4)  # noqa: E731
+        x, y = dc(x), dc(y)
+    if x != y:
+        out.mismatches.append(Finding("mismatch:source-derived", {"matrix": case_json(arr), "op": line.split("|")[0]}, observed=ci[:3000], expected=src[:3000],
+                                      detail="implementation vs the solver REGENERATED FROM THE SOURCE (Gen/MunkresSrc.lean evaluated by Model/MunkresAst.lean) differ in: "
+                                      + _first_state_diff(src, ci)))
+
+
+def src_flush(out: Outcome):
+    for line, hand, src in _SRC_DIFF[:20]:
+        out.mismatches.append(Finding("mismatch:source-vs-model", {"line": line[:2000]}, observed=src[:3000], expected=hand[:3000],
+                                      detail="source-derived run (TS/FS) differs from the hand model (T/F) - contradicts Props/C14Src.lean solve_src / solve_src_float: "
+                                      + _first_state_diff(hand, src)))
+    out.count("threeway:lines", _SRC_STATS["lines"])
+    out.count("threeway:states", _SRC_STATS["states"])
+    out.count("threeway:impl_vs_source_derived", _SRC_STATS["impl_compared"])
+    out.count("threeway:source_vs_model_disagreements", len(_SRC_DIFF))
+    out.notes.append("three-way: {} trace lines ({} step states) evaluated by the hand model AND by the source-derived solver; {} implementation traces compared with both; {} hand/source disagreements".format(
+        _SRC_STATS["lines"], _SRC_STATS["states"], _SRC_STATS["impl_compared"], len(_SRC_DIFF)))
+    _SRC.clear()
+    _SRC_DIFF.clear()
+    for k_ in _SRC_STATS:
+        _SRC_STATS[k_] = 0
 
 
 def impl_phase(ctx, out: Outcome, tag, op, arr, res=None):
@@ -975,6 +1085,8 @@ def diff_phase(out: Outcome, tag, op, arr, res, ci, model_line):
     if tag.startswith("longrun") and arr.size > 64:
         out.sample({"block": tag, "input": {"shape": list(arr.shape), "dtype": str(arr.dtype), "first_row": [ent(x) for x in arr[0].tolist()][:6]},
                     "impl": ci[:80], "step_calls": len(ci.split("|")[1]) if ci.startswith("ok|") else None, "model": (model_line or "")[:80]}, limit=10)
+    if op == "T" and model_line is not None:
+        src_three_way(out, enc_solve("T", arr), arr, ci, hang=(res[0] == "hang"))
     if model_line is None or op not in ("T", "R") or res[0] == "hang" or model_line == ci:
         return
     a, b = model_line.split("|"), ci.split("|")
@@ -1312,6 +1424,7 @@ def exact_judge(out: Outcome, tag, arr, ci, res, res_idx, line):
     if tag.startswith("inexact") and not within:
         out.mismatches.append(Finding("mismatch", case, observed=meta, detail="generator produced a matrix outside the exactness theorem in the inside stream (harness bug)"))
         return
+    src_three_way(out, enc_float(arr), arr, ci, drop_cert=not within)
     if within:
         if same != "1":
             out.mismatches.append(Finding("mismatch", case, observed=line[:3000], detail="the model's run in the work dtype differs from its exact run although the theorem's hypotheses hold (contradicts solveFloat_eq_solve_box)"))
@@ -1427,6 +1540,7 @@ def run(ctx: Ctx) -> Outcome:
         res, ci = done[i]
         cert_phase(out, op, arr, res, ci, cert.get(i))
         diff_phase(out, tag, op, arr, res, ci, model.get(i))
+    src_flush(out)
     # the model must certify its own answers (so that solveChecked = solve on everything explored)
     nocert = [i for i, l in model.items() if l.startswith("ok|") and l.split("|")[4] != "1"]
     out.count("model_answers_not_certified", len(nocert))
@@ -1488,6 +1602,7 @@ def replay(ctx: Ctx, case) -> Outcome:
         tag = ("inexact:" if inside else "above:") + w
         res_idx = call_impl(keep.copy(), full=False, limit=30.0, return_cost=False) if inside else None
         exact_judge(out, tag, keep, canon_impl(res, full=True), res, res_idx, line)
+        src_flush(out)
         return out
     res, ci = impl_phase(ctx, out, "replay", op, arr)
     model_line = cert_line = None
@@ -1498,6 +1613,7 @@ def replay(ctx: Ctx, case) -> Outcome:
             cert_line = _run_driver(ctx, [enc_cert(arr, res[2], res[3], res[4])], "r")[0]
     cert_phase(out, op, arr, res, ci, cert_line)
     diff_phase(out, "replay", op, arr, res, ci, model_line)
+    src_flush(out)
     return out
 
 
